@@ -502,7 +502,7 @@ class Engine:
                 Engine._validate_steps_and_flow(
                     step_paths, sub_flow, path + (key,))
             else:
-                assert isinstance(sub_flow, list)
+                assert isinstance(sub_flow, (list, tuple))
                 for dependency in sub_flow:
                     dependency = path + dependency
                     if dependency not in step_paths:
